@@ -28,8 +28,12 @@ func (s *vStatter) rec(op, name string, v int64, rate float32, tags []cactus.Tag
 	s.calls = append(s.calls, vStatCall{op, name, v, rate, len(tags)})
 	return nil
 }
-func (s *vStatter) Inc(n string, v int64, r float32, t ...cactus.Tag) error { return s.rec("Inc", n, v, r, t) }
-func (s *vStatter) Dec(n string, v int64, r float32, t ...cactus.Tag) error { return s.rec("Dec", n, v, r, t) }
+func (s *vStatter) Inc(n string, v int64, r float32, t ...cactus.Tag) error {
+	return s.rec("Inc", n, v, r, t)
+}
+func (s *vStatter) Dec(n string, v int64, r float32, t ...cactus.Tag) error {
+	return s.rec("Dec", n, v, r, t)
+}
 func (s *vStatter) Gauge(n string, v int64, r float32, t ...cactus.Tag) error {
 	return s.rec("Gauge", n, v, r, t)
 }
